@@ -1231,7 +1231,8 @@ main(int argc, char **argv) {
   add(2, OP_RAW_PING, -1, OP_SEND, -1, -1, -1, BX);       /* pings from the raw peer to server endpoint and client socket */
   add(2, OP_SEND_PING, -1, OP_SEND, -1, -1, -1, BX);      /* application ping: ping handler, RST => NACK callback */
   add(2, OP_CACHE_APP, OP_SLEEP, OP_REF, -1, -1, -1, BX); /* cache entry idles out in the I/O thread */
-  add(2, OP_RESOURCE_UD, -1, OP_NOTIFY, -1, -1, -1, BX);  /* user-data release in the API thread */
+  add(2, OP_RESOURCE_UD, -1, OP_NOTIFY, -1, -1, -1, 2);   /* user-data release in the API thread (two preemptions also in quick: an unlock
+                                                           * of one thread racing with the other thread's lock-held call-out needs both) */
   add(2, OP_SEND_LARGE, -1, OP_SEND, -1, -1, -1, BX);     /* large-data release in the API thread */
   if (T_) {
     add(2, OP_SLEEP, OP_SEND, OP_NOTIFY, -1, -1, -1, BX);
